@@ -4,6 +4,8 @@
 -/
 import SigV4.Spec.ValidateSpec
 import SigV4.Spec.HeaderSpec
+import SigV4.Lemmas.Headers
+import SigV4.Lemmas.C05
 
 namespace SigV4
 
@@ -19,6 +21,152 @@ def Returned.sansHeaders (r : Returned) : Bytes × Option Bytes × Bytes × Byte
 def Request.insertHeader (req : Request) (i : Nat) (extra : Bytes × Bytes) : Request :=
   { req with headers := req.headers.take i ++ extra :: req.headers.drop i }
 
+
+/-! ### Helper lemmas -/
+
+/-- Two header maps agree away from the name `e`. -/
+def AgreeOff (e : Bytes) (m' m : HeaderMap) : Prop :=
+  ∀ k, k ≠ e → assocGet m' k = assocGet m k
+
+theorem c11v_firstHeader_insert (hs : HeaderList) (extra : Bytes × Bytes) (name : Bytes)
+    (h : asciiLower extra.1 ≠ name) (i : Nat) :
+    firstHeader (hs.take i ++ extra :: hs.drop i) name = firstHeader hs name := by
+  induction hs generalizing i with
+  | nil =>
+    obtain ⟨k, v⟩ := extra
+    simp only [List.take_nil, List.drop_nil, List.nil_append]
+    simp only [] at h
+    simp [firstHeader, h]
+  | cons e rest ih =>
+    cases i with
+    | zero =>
+      obtain ⟨k, v⟩ := extra
+      simp only [] at h
+      simp only [List.take_zero, List.drop_zero, List.nil_append]
+      rw [firstHeader]
+      simp only [h, if_false]
+    | succ j =>
+      obtain ⟨k', v'⟩ := e
+      simp only [List.take_succ_cons, List.drop_succ_cons, List.cons_append]
+      rw [firstHeader, firstHeader, ih j]
+
+theorem c11v_agree_insert (hs : HeaderList) (extra : Bytes × Bytes) (i : Nat) :
+    AgreeOff (asciiLower extra.1) (normalizeHeaders (hs.take i ++ extra :: hs.drop i) [])
+      (normalizeHeaders hs []) := by
+  intro k hk
+  rw [normalizeHeaders_get', normalizeHeaders_get', valuesOf_insert hs extra i k (fun h => hk h.symm)]
+
+theorem c11v_mem_keys_of_agree (e : Bytes) (m' m : HeaderMap) (h : AgreeOff e m' m) (k : Bytes)
+    (hk : k ≠ e) : k ∈ m'.map Prod.fst ↔ k ∈ m.map Prod.fst := by
+  rw [← assocGet_isSome_iff, ← assocGet_isSome_iff, h k hk]
+
+theorem c11v_fromRequestParts (H : Bytes → Bytes) (opts : Options) (other : OtherCharset)
+    (req : Request) (i : Nat) (extra : Bytes × Bytes) (hct : asciiLower extra.1 ≠ CONTENT_TYPE) :
+    fromRequestParts H opts other (req.insertHeader i extra) =
+      (fromRequestParts H opts other req).map (fun fp =>
+        { fp with creq := { fp.creq with
+            headers := normalizeHeaders (req.headers.take i ++ extra :: req.headers.drop i) [] } }) := by
+  have hc : contentTypeCharset (req.headers.take i ++ extra :: req.headers.drop i)
+      = contentTypeCharset req.headers := by
+    unfold contentTypeCharset
+    rw [c11v_firstHeader_insert _ _ _ hct]
+  have hf : foldsBody opts (req.headers.take i ++ extra :: req.headers.drop i)
+      = foldsBody opts req.headers := by
+    unfold foldsBody
+    rw [hc]
+  unfold fromRequestParts
+  simp only [Request.insertHeader, hc, hf]
+  split
+  · rfl
+  · rfl
+  · split
+    · rfl
+    · rfl
+    · split
+      · split
+        · rfl
+        · rfl
+        · split
+          · rfl
+          · rfl
+          · split <;> (split <;> rfl)
+      · rfl
+
+theorem c11v_extractAuthParams (c : CanonReq) (hd : HeaderMap)
+    (ha : assocGet hd AUTHORIZATION = assocGet c.headers AUTHORIZATION)
+    (hx : assocGet hd X_AMZ_DATE_LOWER = assocGet c.headers X_AMZ_DATE_LOWER)
+    (hdt : assocGet hd DATE = assocGet c.headers DATE)
+    (ht : assocGet hd X_AMZ_SECURITY_TOKEN_LOWER = assocGet c.headers X_AMZ_SECURITY_TOKEN_LOWER) :
+    extractAuthParams { c with headers := hd } = extractAuthParams c := by
+  have e1 : ∀ ah, authParamsFromHeader { c with headers := hd } ah = authParamsFromHeader c ah := by
+    intro ah
+    unfold authParamsFromHeader firstOf
+    simp only [hx, hdt, ht]
+  have e2 : ∀ alg, authParamsFromQuery { c with headers := hd } alg = authParamsFromQuery c alg := by
+    intro alg
+    rfl
+  unfold extractAuthParams
+  simp only [ha, e1, e2]
+
+theorem c11v_headerLine (m' m : HeaderMap) (name : Bytes) (h : assocGet m' name = assocGet m name) :
+    headerLine m' name = headerLine m name := by
+  unfold headerLine
+  rw [h]
+
+theorem c11v_requirementsMet (reqs : Requirements) (e : Bytes) (m' m : HeaderMap)
+    (signed : List Bytes) (hag : AgreeOff e m' m)
+    (h2 : e ∉ reqs.ifInRequest.map asciiLower)
+    (h3 : ∀ p ∈ reqs.prefixes, (asciiLower p).isPrefixOf e = false) :
+    requirementsMet reqs m' signed = requirementsMet reqs m signed := by
+  rw [Bool.eq_iff_iff, requirementsMet_eq_true_iff, requirementsMet_eq_true_iff]
+  refine and_congr Iff.rfl (and_congr Iff.rfl (and_congr ?_ ?_))
+  · refine forall_congr' fun c => forall_congr' fun hc => ?_
+    have hne : asciiLower c ≠ e := fun he => h2 (he ▸ List.mem_map_of_mem hc)
+    rw [c11v_mem_keys_of_agree e m' m hag _ hne]
+  · refine forall_congr' fun p => forall_congr' fun hp => forall_congr' fun n => ?_
+    by_cases hn : n = e
+    · subst hn
+      have := h3 p hp
+      simp [this]
+    · rw [c11v_mem_keys_of_agree e m' m hag _ hn]
+
+theorem c11v_getAuthenticator (H : Bytes → Bytes) (reqs : Requirements) (c : CanonReq) (e : Bytes)
+    (hd : HeaderMap) (hag : AgreeOff e hd c.headers)
+    (h1 : e ∉ consultedHeaders)
+    (h2 : e ∉ reqs.ifInRequest.map asciiLower)
+    (h3 : ∀ p ∈ reqs.prefixes, (asciiLower p).isPrefixOf e = false)
+    (h4 : ∀ ap, extractAuthParams c = .ok ap → e ∉ ap.signedHeaders) :
+    getAuthenticator H reqs { c with headers := hd } = getAuthenticator H reqs c := by
+  simp only [consultedHeaders, List.mem_cons, List.not_mem_nil, or_false, not_or] at h1
+  obtain ⟨ha, hx, hdt, ht, _⟩ := h1
+  have hex : extractAuthParams { c with headers := hd } = extractAuthParams c :=
+    c11v_extractAuthParams c hd (hag _ (Ne.symm ha)) (hag _ (Ne.symm hx)) (hag _ (Ne.symm hdt))
+      (hag _ (Ne.symm ht))
+  unfold getAuthenticator getAuthParams
+  rw [hex]
+  cases hap : extractAuthParams c with
+  | err k => rfl
+  | panic p => rfl
+  | ok ap =>
+    simp only []
+    rw [c11v_requirementsMet reqs e hd c.headers ap.signedHeaders hag h2 h3]
+    have hcr : canonicalRequest { c with headers := hd } ap.signedHeaders
+        = canonicalRequest c ap.signedHeaders := by
+      unfold canonicalRequest
+      simp only []
+      rw [flatMap_congr' ap.signedHeaders (headerLine hd) (headerLine c.headers)]
+      intro name hn
+      apply c11v_headerLine
+      apply hag
+      intro he
+      exact h4 ap hap (he ▸ hn)
+    by_cases hr : requirementsMet reqs c.headers ap.signedHeaders = true
+    · simp only [hr, if_true]
+      unfold authenticatorOf
+      simp only [hcr]
+    · simp only [hr]
+      rfl
+
 theorem unsigned_header_irrelevant_lemma {σ : Type} (H : Bytes → Bytes) (cfg : Config) (P : Provider σ) (s : σ)
     (req : Request) (i : Nat) (extra : Bytes × Bytes)
     (h1 : asciiLower extra.1 ∉ consultedHeaders)
@@ -30,6 +178,34 @@ theorem unsigned_header_irrelevant_lemma {σ : Type} (H : Bytes → Bytes) (cfg 
         = (validate H cfg P s req).out.map Returned.sansHeaders ∧
     (validate H cfg P s (req.insertHeader i extra)).calls = (validate H cfg P s req).calls ∧
     (validate H cfg P s (req.insertHeader i extra)).state = (validate H cfg P s req).state := by
-  sorry
+  have hct : asciiLower extra.1 ≠ CONTENT_TYPE := by
+    intro he
+    apply h1
+    simp [consultedHeaders, he]
+  unfold validate
+  rw [c11v_fromRequestParts H cfg.opts cfg.other req i extra hct]
+  cases hfp : fromRequestParts H cfg.opts cfg.other req with
+  | err k => simp
+  | panic p => simp
+  | ok fp =>
+    simp only [Outcome.map_ok]
+    have hh := fromRequestParts_headers H cfg.opts cfg.other req fp hfp
+    have hag : AgreeOff (asciiLower extra.1)
+        (normalizeHeaders (req.headers.take i ++ extra :: req.headers.drop i) []) fp.creq.headers := by
+      rw [hh]
+      exact c11v_agree_insert req.headers extra i
+    rw [c11v_getAuthenticator H cfg.reqs fp.creq (asciiLower extra.1) _ hag h1 h2 h3
+      (fun ap hap => h4 fp ap hfp hap)]
+    cases getAuthenticator H cfg.reqs fp.creq with
+    | err k => simp
+    | panic p => simp
+    | ok a =>
+      simp only []
+      cases (validateSignature H P s a cfg.region cfg.service cfg.now).out with
+      | err k => simp
+      | panic p => simp
+      | ok resp => simp [Returned.sansHeaders, Request.insertHeader]
 
 end SigV4
+
+#print axioms SigV4.unsigned_header_irrelevant_lemma
